@@ -189,6 +189,33 @@ def systematic():
         [task(views=[('A', M)]), task(res=[('RA', True)]), task(views=[('A', M)])],
     ]
     scheds += misc
+    # a later task whose FIRST views (in registry order or as written) are unrelated to the earlier
+    # task and whose conflicting view comes after them (and the mirror image): the compile-time
+    # stager must look at every view of the later task, not stop at the first harmless one
+    multi = []
+    for u, x in (('A', 'B'), ('B', 'A')):
+        for ku in VK:
+            multi.append([task(views=[(x, M)]), task(views=[(u, ku), (x, M)])])
+        for ku in (Rf, M):
+            multi.append([task(views=[(x, M)]), task(views=[(u, ku), (x, Rf)])])
+            multi.append([task(views=[(x, Rf)], has_id=True), task(views=[(x, M), (u, ku)])])
+    multi += [
+        [task(views=[('C', M)]), task(views=[('A', Rf), ('B', M), ('C', M), ('D', Rf)])],
+        [task(views=[('B', M)]), task(views=[('A', Rf)], entry=[('B', M)])],
+        [task(views=[('B', M)]), task(views=[('A', M)], entry=[('B', Rf)])],
+        [task(views=[('A', M)], entry=[('C', M)]), task(par=True, views=[('B', Rf), ('C', Rf)])],
+        [task(par=True, views=[('D', M)]), task(par=True, views=[('A', Rf), ('B', 'OptRef'), ('D', 'OptMut')])],
+        # the same for resource views
+        [task(views=[('A', M)], res=[('RB', True)]), task(views=[('B', M)], res=[('RA', False), ('RB', False)])],
+        [task(views=[('A', M)], res=[('RB', True)]), task(views=[('B', M)], res=[('RA', True), ('RB', True)])],
+        [task(views=[('A', M)], res=[('RB', False)]), task(views=[('B', M)], res=[('RA', False), ('RB', True)])],
+        [task(views=[('A', M)], res=[('RA', True)]), task(views=[('B', M)], res=[('RA', False), ('RB', False)])],
+        [task(views=[('A', M)], res=[('RB', True)]), task(views=[('B', M)], res=[('RA', False), ('RB', True)])],
+        [task(views=[('A', M)], res=[('RC', True)]), task(par=True, views=[('B', M)], res=[('RB', False), ('RC', True)])],
+        [task(res=[('RC', True)]), task(res=[('RA', False), ('RB', False), ('RC', False)])],
+        [task(views=[('A', M)], res=[('RC', True)]), task(views=[('B', M)], res=[('RA', True), ('RC', True)]), task(views=[('C', M)], res=[('RB', False), ('RC', False)])],
+    ]
+    scheds += multi
     for s in scheds:
         for t in s:
             assert valid(t), t
@@ -253,8 +280,12 @@ def emit_sched(name, tasks):
         w("    fn run<'a, R_, S_, I, E>(&mut self, qr: brood::query::Result<'a, R_, S_, I, Self::ResourceViews<'a>, Self::EntryViews<'a>, E>) where R_: ContainsViews<'a, Self::EntryViews<'a>, E>, I: %s<Item = Self::Views<'a>> {" % bound)
         w('        self.st.runs += 1; self.st.path = current_path();')
         w('        let result!(%s) = qr.resources;' % ', '.join(rnames))
+        if rnames:
+            w('        let acc_before_resources = self.st.acc;')
         for k, rn in enumerate(rnames):
             w('        %s.touch(&mut self.st, %d);' % (rn, 1001 + k))
+        if rnames:
+            w('        self.st.res_acc = self.st.res_acc.wrapping_add(self.st.acc.wrapping_sub(acc_before_resources));')
         salt = 'id_salt(id)' if t['has_id'] else '0u64'
         if t['par']:
             w('        let rec = ParRec { tag: self.st.tag, ..Default::default() };')
@@ -265,7 +296,11 @@ def emit_sched(name, tasks):
         else:
             body = 'self.st.matched += 1; let salt = %s; ' % salt
             body += ' '.join('v%d.touch(&mut self.st, salt ^ %d);' % (k, k + 1) for k in range(len(t['views'])))
-            w('        for %s in qr.iter { %s }' % (rpat, body))
+            if (sum(map(ord, name)) + i) % 3 == 0:
+                # a third of the sequential bodies consume the iterator through fold (for_each)
+                w('        qr.iter.for_each(|%s| { %s });' % (rpat, body))
+            else:
+                w('        for %s in qr.iter { %s }' % (rpat, body))
         if t['entry']:
             w('        let mut entries = qr.entries;')
             w('        let targets = self.targets.clone();')
